@@ -193,7 +193,11 @@ def scenarios():
         out[f"{kind}/computed-pin/use-in-setup"] = f"mon = SerialMonitor(9600)\n{decl}\n{use}\nwhile True:\n    sleep(5)\n"
     # pin 0 is a pin like any other (a falsy constant must not be taken for "no pin")
     ZERO = {"Led": ("d = Led(0)", "d.on()"), "Led-keyword": ("d = Led(pin=0)", "d.toggle()"), "Led-folded": ("d = Led(1 - 1)", "d.on()"), "Buzzer": ("d = Buzzer(0)", "d.play_tone(440)"),
-            "Button": ("d = Button(0)", "mon.write(d.is_pressed())"), "Servo": ("d = Servo(0)", "d.write(90)"), "RGBLed": ("d = RGBLed(0, 1, 2)", "d.set_color(1, 2, 3)"), "DCMotor": ("d = DCMotor(0, 1, 3)", "d.set_speed(0.5)")}
+            "Button": ("d = Button(0)", "mon.write(d.is_pressed())"), "Servo": ("d = Servo(0)", "d.write(90)"), "RGBLed": ("d = RGBLed(0, 1, 2)", "d.set_color(1, 2, 3)"), "DCMotor": ("d = DCMotor(0, 1, 3)", "d.set_speed(0.5)"),
+            "LCD-backlight": ("d = LCD(rs=12, en=11, d4=5, d5=4, d6=3, d7=2, backlight_pin=0)", "d.brightness(128)"),
+            "LCD-backlight-toggle": ("d = LCD(rs=12, en=11, d4=5, d5=4, d6=3, d7=2, backlight_pin=0)", "d.backlight(False)"),
+            "LCD-backlight-folded": ("d = LCD(rs=12, en=11, d4=5, d5=4, d6=3, d7=2, backlight_pin=2 - 2)", "d.brightness(40)"), "Potentiometer": ("d = Potentiometer(0)", "mon.write(d.read())"),
+            "Ultrasonic": ("d = Ultrasonic(0, 1)", "mon.write(d.measure_distance())")}
     for kind, (decl, use) in ZERO.items():
         out[f"{kind}/pin-zero/use-in-loop"] = f"mon = SerialMonitor(9600)\n{decl}\nwhile True:\n    {use}\n    sleep(5)\n"
         out[f"{kind}/pin-zero/use-in-setup-and-helper"] = f"mon = SerialMonitor(9600)\n{decl}\ndef act():\n    {use}\n{use}\nwhile True:\n    act()\n    sleep(5)\n"
@@ -457,6 +461,9 @@ T5_SCRIPTS = {
     "prologue-order-with-branch-and-loop": "mon = SerialMonitor(9600)\nx = 1\nfor i in range(3):\n    x = x * 2\ny = x + 1\nc = 1\nif c > 0:\n    y = y + 100\nz = y - x\nmon.write(y)\nmon.write(z)\nwhile True:\n    mon.write(z + y)\n    sleep(5)\n",
     "continue-in-elif-arm": "mon = SerialMonitor(9600)\nn = 0\nwhile True:\n    n = n + 1\n    if n == 1:\n        mon.write('one')\n    elif n % 2 == 0:\n        continue\n    else:\n        mon.write('odd')\n    mon.write(n)\n    sleep(5)\n",
     "reinitialised-at-top-of-every-pass": "mon = SerialMonitor(9600)\nwhile True:\n    lo, hi = 2, 5\n    x = 0\n    tag = 'a'\n    lo = lo + hi\n    x = x + lo\n    tag = tag + 'b'\n    mon.write(lo)\n    mon.write(x)\n    mon.write(tag)\n    hi = hi * 10\n    sleep(5)\n",
+    "prologue-if-else-with-commented-clause-headers": "mon = SerialMonitor(9600)\nfast = 1\ncount = 0\nif fast > 0:  # quick start\n    count = 10\nelse:  # slow start\n    count = 100\nmon.write(count)\nwhile True:\n    count = count + 1\n    mon.write(count)\n    sleep(5)\n",
+    "prologue-elif-chain-with-commented-clause-headers": "mon = SerialMonitor(9600)\nmode = 2\nstep = 0\nif mode == 1:   # one\n    step = 1\nelif mode == 2:   # two\n    step = 20\nelif mode == 3: # three\n    step = 300\nelse:   # other\n    step = 4000\nmon.write(step)\nwhile True:\n    step = step + 1\n    mon.write(step)\n    sleep(5)\n",
+    "prologue-nested-chains-with-commented-clause-headers": "mon = SerialMonitor(9600)\na = 1\nb = 0\nv = 0\nif a > 0:  # outer\n    if b > 0:  # inner\n        v = 1\n    else:  # inner else\n        v = 2\nelse:  # outer else\n    v = 3\nmon.write(v)\nwhile True:\n    v = v + 10\n    mon.write(v)\n    sleep(5)\n",
     "tuple-reinitialised-after-a-call": "mon = SerialMonitor(9600)\nk = 0\nwhile True:\n    mon.write(k)\n    a, b = 1, 2\n    a = a + b + k\n    b = b * a\n    mon.write(a)\n    mon.write(b)\n    k = k + 1\n    sleep(5)\n",
     "motor-speed-variable": "mon = SerialMonitor(9600)\nm = DCMotor(2, 3, 5)\nspeed = 0.2\nwhile True:\n    m.set_speed(speed)\n    mon.write(speed)\n    speed = speed + 0.1\n    sleep(5)\n",
     "brightness-variable": "mon = SerialMonitor(9600)\nl = Led(9)\nlevel = 10\nwhile True:\n    l.set_brightness(level)\n    mon.write(level)\n    level = level + 20\n    sleep(5)\n",
